@@ -450,11 +450,26 @@ pub fn c20(args: &Args) -> i32 {
         base.qlog = QlogMode::None;
         let b = run_once(&base, &[], Tail::None);
         let n = b.wire.len();
+        // fate sequences: fault-free + one deviation at a datagram: loss, duplication, reordering
+        // (these make the receiver *drop* packets — keys already discarded, duplicates,
+        // undecryptable — whose events are built on other code paths than those of a clean
+        // run); thorough adds a header bit flip, a truncation and a late replay. Quick: every
+        // datagram of the handshake (first 16), every third afterwards.
         let mut prefixes: Vec<Vec<Fate>> = vec![vec![]];
-        for i in (0..n).step_by(if args.thorough { 1 } else { 3 }) {
-            let mut p = vec![Fate::Deliver; i];
-            p.push(Fate::Drop);
-            prefixes.push(p);
+        let menu: Vec<Fate> = if args.thorough {
+            vec![Fate::Drop, Fate::Dup, Fate::Delay, Fate::Flip(0, 0x08), Fate::Trunc(24), Fate::Replay(3000)]
+        } else {
+            vec![Fate::Drop, Fate::Dup, Fate::Delay]
+        };
+        for i in 0..n {
+            if !args.thorough && i >= 16 && i % 3 != 0 {
+                continue;
+            }
+            for f in &menu {
+                let mut p = vec![Fate::Deliver; i];
+                p.push(*f);
+                prefixes.push(p);
+            }
         }
         let modes = [QlogMode::None, QlogMode::Noop, QlogMode::Capture, QlogMode::Filtered];
         let jobs: Vec<(Vec<Fate>, QlogMode)> = prefixes.iter().flat_map(|p| modes.iter().map(move |m| (p.clone(), *m))).collect();
@@ -497,7 +512,7 @@ pub fn c20(args: &Args) -> i32 {
                 evaluations: jobs.len() as u64,
                 distinct_nontrivial: (prefixes.len() * 3) as u64,
                 exhaustive: true,
-                rule: "fault-free run and every (quick: every third) single-drop schedule × exporter configurations {none, no-op, capturing, capturing+filter(transport,recovery)}: every captured event serialises with time/name/data, parses back equal, re-serialises identically; no panic; trace + application signature identical across configurations; distinct = (schedule, non-none configuration) pairs".into(),
+                rule: "fault-free run and every schedule with one deviation (drop, duplicate, delay; thorough also header bit flip, truncation, late replay) at a datagram (quick: each of the first 16, every third afterwards) × exporter configurations {none, no-op, capturing, capturing+filter(transport,recovery)}: every captured event serialises with time/name/data, parses back equal, re-serialises identically; no panic; trace + application signature identical across configurations; distinct = (schedule, non-none configuration) pairs".into(),
                 samples: vec![json!({"workload": name, "events_first_run": outs.get(2).map(|o| o.events.len())})],
                 extra,
                 ..Default::default()
@@ -638,8 +653,15 @@ pub fn c19b(args: &Args) -> i32 {
     if args.replay.is_some() {
         return replay(args);
     }
-    for k in [1usize, 3] {
-        let cfg = RunCfg::new(Workload::Datagrams(k));
+    // (datagrams each way, max_datagram_frame_size advertised by client / server)
+    let variants: Vec<(usize, Option<(u32, u32)>)> = vec![(1, None), (3, None), (3, Some((65535, 100))), (3, Some((100, 65535))), (3, Some((1200, 0))), (3, Some((0, 1200)))];
+    for (k, dm) in variants {
+        let mut cfg = RunCfg::new(Workload::Datagrams(k));
+        cfg.dgram_max = dm;
+        let subname = match dm {
+            None => format!("datagrams{k}"),
+            Some((c, s)) => format!("datagrams{k}-max{c}-{s}"),
+        };
         let base = run_once(&cfg, &[], Tail::None);
         let n = base.wire.len();
         let mut prefixes: Vec<Vec<Fate>> = vec![vec![]];
@@ -653,12 +675,47 @@ pub fn c19b(args: &Args) -> i32 {
         for (p, o) in prefixes.iter().zip(&outs) {
             let all = format!("{:?} {:?}", o.client, o.server);
             *outcomes.entry(summarize(&all)).or_default() += 1;
-            let rp = json!({"sub": format!("datagrams{k}"), "config": cfg, "prefix": trim(p), "tail": "None"});
+            let rp = json!({"sub": subname, "config": cfg, "prefix": trim(p), "tail": "None"});
             for p in &o.panics {
                 report.violation(&format!("panic/{}", class_of(p)), p, rp.clone());
             }
             if all.contains("CORRUPT") {
                 report.violation("datagram/altered-or-merged", &format!("a received datagram matches none that was sent: {all}"), rp.clone());
+            }
+            // admission: the peer's advertised maximum decides (RFC 9221 §3: the maximum is the
+            // size of the whole frame). A payload of L bytes needs at least 1 + L bytes in its
+            // shortest form and at most 1 + varint(L) + L: beyond the former it cannot fit and
+            // must be refused, within the latter it fits in every form and may not be refused
+            // "because it cannot fit"; a peer maximum of 0 means datagrams are not supported.
+            let (cmax, smax) = dm.unwrap_or((1200, 1200));
+            for (side, peer_max, who, tag0) in [(&o.client, smax, "client", 0usize), (&o.server, cmax, "server", 100usize)] {
+                let _ = tag0;
+                if side.iter().any(|r| r == "dg-unavailable") {
+                    if peer_max > 0 && cmax > 0 && smax > 0 {
+                        report.violation("datagram/unavailable-although-both-sides-enabled", &format!("{who}: datagram reader/writer refused although both sides advertise a maximum > 0: {all}"), rp.clone());
+                    }
+                    continue;
+                }
+                for i in 0..k {
+                    let len = (10 + i * 90) as u64;
+                    let Some(r) = side.iter().find(|r| r.starts_with(&format!("dg-send{i}:"))) else { continue };
+                    let accepted = r.ends_with("true");
+                    let varint = if len < 64 { 1 } else { 2 };
+                    if accepted && (peer_max == 0 || 1 + len > peer_max as u64) {
+                        report.violation(
+                            "datagram/accepted-beyond-peer-maximum",
+                            &format!("{who}: a datagram of {len} bytes was accepted although the peer advertised max_datagram_frame_size = {peer_max} (own value {}): {all}", if who == "client" { cmax } else { smax }),
+                            rp.clone(),
+                        );
+                    }
+                    if !accepted && peer_max > 0 && 1 + varint + len <= peer_max as u64 {
+                        report.violation(
+                            "datagram/refused-although-it-fits",
+                            &format!("{who}: a datagram of {len} bytes was refused although the peer advertised max_datagram_frame_size = {peer_max} (own value {}): {all}", if who == "client" { cmax } else { smax }),
+                            rp.clone(),
+                        );
+                    }
+                }
             }
             for side in [&o.client, &o.server] {
                 let accepted = side.iter().filter(|r| r.starts_with("dg-send") && r.ends_with("true")).count();
@@ -691,7 +748,7 @@ pub fn c19b(args: &Args) -> i32 {
         let mut extra = serde_json::Map::new();
         extra.insert("outcomes".into(), json!(outcomes));
         report.sub(
-            &format!("datagrams{k}"),
+            &subname,
             Coverage {
                 evaluations: prefixes.len() as u64,
                 distinct_nontrivial: (prefixes.len() - 1) as u64,
